@@ -24,8 +24,10 @@ def check(ctx):
     ctx.sub(s1_formula)
     ctx.sub(s2_guards)
     # the fee estimate is the configured fee model applied to the share: the model must not depend on the (placeholder) quantity
-    from . import c05
+    from . import c05, c06, c08
     ctx.sub(c05.s4_fee_models)
+    ctx.sub(c08.sizer_selection)       # the sizer is built with the caller's buffer, unmodified
+    ctx.sub(c06.converter)             # an unavailable price stays NaN (no back-fill), so it can be rejected
 
 
 def s1_formula(ctx):
@@ -78,6 +80,9 @@ def s1_formula(ctx):
         for c, v, _ in p.conds:
             if call_is(c, 'ISCLOSE') and c[2][0] == SUMW and c[2][1] == ZERO:
                 close = v
+                if c[3]:
+                    ctx.violation('C10.S2', 'the "weights sum to ~0" shortcut uses the default tolerance', ctx.fn(qn).site(), 'tolerance changed: %s' % fmt(c)[-60:],
+                                  key='C10.S2|tolerance')
         if close is None:
             ctx.undecided('C10.S1', '_normalise_weights branches on whether the weights sum to ~0', ctx.fn(qn).site(), cond_str(p)[:200])
             continue
